@@ -69,6 +69,10 @@ type Case struct {
 	// Gosched up to 8, microseconds above), as a hook programming hardware would - it
 	// stretches every critical section it is called from
 	HookDelay int `json:"hookdelay,omitempty"`
+	// AddNIs: one goroutine per element that creates network instances at runtime
+	// (Server.AddNetworkInstance) while the others work: that many (or, in Loop workloads,
+	// with that pause in microseconds until the sessions have finished; at most 200)
+	AddNIs []int `json:"addnis,omitempty"`
 }
 
 func setup() {
@@ -311,6 +315,31 @@ func runCase(c Case) *ev.Verdict {
 				}
 			}
 		}(k)
+	}
+	for ai, k := range c.AddNIs {
+		wg.Add(1)
+		go func(ai, k int) {
+			defer wg.Done()
+			<-start
+			for j := 0; j < 200 && keepGoing(j, k); j++ {
+				var err error
+				hg := drive.Watch("AddNetworkInstance", func() { err = s.S.AddNetworkInstance(fmt.Sprintf("NEW-%d-%d", ai, j)) })
+				auxMu.Lock()
+				if hg != nil {
+					aux = append(aux, hg)
+				}
+				if err != nil {
+					auxErr = append(auxErr, "AddNetworkInstance: "+err.Error())
+				}
+				auxMu.Unlock()
+				if hg != nil {
+					return
+				}
+			}
+		}(ai, k)
+	}
+	if len(c.AddNIs) > 0 {
+		v.Class("instances-created-at-runtime")
 	}
 	close(start)
 	go func() { swg.Wait(); close(sessionsDone) }()
@@ -591,7 +620,10 @@ func drawChurn(rt *rapid.T) Case {
 	if c.Hooks {
 		c.HookDelay = drawHookDelay(rt)
 	}
-	c.Gets, c.Flushes = nil, nil
+	c.Gets, c.Flushes, c.AddNIs = nil, nil, nil
+	if rapid.IntRange(0, 2).Draw(rt, "loop-adder") == 0 {
+		c.AddNIs = append(c.AddNIs, rapid.IntRange(0, 300).Draw(rt, "add-pause-us"))
+	}
 	for i := rapid.IntRange(0, 2).Draw(rt, "loop-readers"); i > 0; i-- {
 		c.Gets = append(c.Gets, rapid.IntRange(0, 300).Draw(rt, "get-pause-us"))
 	}
@@ -670,6 +702,9 @@ func drawCaseN(rt *rapid.T, minActs, maxActs, elecOneIn int) Case {
 	}
 	for i := rapid.IntRange(0, 2).Draw(rt, "flushers"); i > 0; i-- {
 		c.Flushes = append(c.Flushes, rapid.IntRange(1, 4).Draw(rt, "nflush"))
+	}
+	if rapid.IntRange(0, 3).Draw(rt, "add-instances?") == 0 {
+		c.AddNIs = append(c.AddNIs, rapid.IntRange(1, 6).Draw(rt, "nadd"))
 	}
 	c.FlushNI = []string{"all", "DEFAULT", "VRF-A"}[rapid.IntRange(0, 2).Draw(rt, "flushni")]
 	c.FlushByID = rapid.Bool().Draw(rt, "flushbyid")
